@@ -131,7 +131,38 @@ def mk_parent(p, N):
         return Parent(id=CHROM, sequence_type=SequenceType.CHROMOSOME)
     if p[0] == "chunk":
         return lib.chunk_parent(GENOME[:N], p[1], p[2], name=CHROM)
+    if p[0] == "chunkm":  # the chunk [a,b) lies on the MINUS strand of the chromosome: its text is the reverse complement
+        from inscripta.biocantor.io.parser import seq_chunk_to_parent
+        from inscripta.biocantor.location.strand import Strand
+
+        return seq_chunk_to_parent(revcomp(GENOME[:N][p[1]:p[2]]), CHROM, p[1], p[2], strand=Strand.MINUS)
     raise KeyError(p)
+
+
+_COMP = {"A": "T", "C": "G", "G": "C", "T": "A"}
+
+
+def revcomp(text):
+    return "".join(_COMP[ch] for ch in reversed(text))
+
+
+def minus_windows(lo, hi, N, tier):
+    """minus-strand chunk windows for an object spanning [lo,hi): whole chromosome, 5'/3'-cutting, tight, inner (quick);
+    every window (thorough)"""
+    if tier == "thorough":
+        wins = list(worlds.windows(N))
+    else:
+        wins = [(0, N)]
+        if hi - lo >= 2:
+            wins.append((lo + 1, N))
+        if hi - lo >= 3:
+            wins.append((lo + 1, hi - 1))
+        wins.append((lo, hi))
+    seen = []
+    for w in wins:
+        if w not in seen:
+            seen.append(w)
+    return [["chunkm", a, b] for a, b in seen]
 
 
 def span_of(spec):
@@ -794,6 +825,33 @@ def corpus(tier):
                     for p in parent_kinds(lo, hi, Nc, "thorough"):
                         if p not in done:
                             out.append(dict(a, p=p, m="m1", q=Q["q3"], fam="ctx"))
+    # ---- minus-strand chunk parents (family "mctx"): every class, rich and plain profile -----------------------------
+    for pool in (tx_pool(), feat_pool(), cds_pool(), var_pool()):
+        for base in pool:
+            lo, hi = span_of(dict(base, N=Nc))
+            for p in minus_windows(lo, hi, Nc, tier):
+                for m, q in (("m1", "q3"), ("m0", "q0")):
+                    out.append(dict(base, N=Nc, p=p, m=m, q=Q[q], fam="mctx"))
+    for cname, key, pool, kmax in (("gene", "tx", txp[:4], 2), ("fc", "ft", fp[:3], 2), ("vc", "vs", vp[:3], 2)):
+        for comb in subsets(pool, kmax):
+            if cname == "vc" and len(comb) == 2 and not (pool[comb[0]]["e"] <= pool[comb[1]]["s"] or pool[comb[1]]["e"] <= pool[comb[0]]["s"]):
+                continue
+            kids = [dict(pool[j], m=_kid_metas("m1", n), q=Q["q3"]) for n, j in enumerate(comb)]
+            g = {"c": cname, key: kids, "N": Nc}
+            lo, hi = span_of(g)
+            for p in minus_windows(lo, hi, Nc, "quick"):
+                out.append(dict(g, p=p, m="m1", q=Q["q3"], fam="mctx"))
+    for gs in gene_sets:
+        for fs in fc_sets:
+            for vs in vc_sets:
+                if not (gs or fs):
+                    continue
+                base = dict(c="ac", genes=gs, fcs=fs, vcs=vs, N=Nc)
+                lo, hi = span_of(base)
+                for bounds, cw in ((None, None), ([0, Nc], True)):
+                    a = dict(base, bounds=bounds, cw=cw)
+                    for p in minus_windows(lo, hi, Nc, tier if bounds is None else "quick"):
+                        out.append(dict(a, p=p, m="m1", q=Q["q3"], fam="mctx"))
     if not thorough:
         for spec in out:
             spec["d"] = quick_depth(spec)
@@ -805,6 +863,10 @@ def quick_depth(spec):
     none / whole chromosome / chunk), chains of length <= 2 elsewhere (single hops for the parent-less copies of the geometry families and for collections
     with explicit bounds).  The thorough tier runs length 3 everywhere."""
     c, p = spec["c"], spec.get("p")
+    if spec.get("fam") == "mctx":
+        if c == "ac":
+            return 1 if spec.get("bounds") else (3 if p[1:] == [0, spec["N"]] and len(children_specs(spec)) == 1 else 2)
+        return 3 if p[1:] == [0, spec["N"]] and spec.get("m") == "m1" and c in ("tx", "feat", "cds", "var") else 2
     rich = spec.get("m") == "m1" and bool(spec.get("q")) and len(spec["q"]) >= 3
     if spec.get("fam") == "geom":
         # one deep object per class and strand: the single block [0,1) in the rich context
